@@ -4,6 +4,8 @@
 package storage
 
 import (
+	"bytes"
+	"sort"
 	"sync"
 
 	"github.com/marekgalovic/anndb/index"
@@ -69,3 +71,60 @@ func (this *VerifPartition) Len() int                  { return this.p.len() }
 func (this *VerifPartition) BytesSize() uint64         { return this.p.bytesSize() }
 func (this *VerifPartition) RandomLevel() int          { return this.p.index.RandomLevel() }
 func (this *VerifPartition) Index() *index.Hnsw        { return this.p.index }
+
+// VerifPauseHook is called between proposing a partition change and waiting
+// for its outcome (the commit-before-wait window).
+var VerifPauseHook func(nodeId uint64, partitionId uuid.UUID, point string)
+
+func verifPause(p *partition, point string) {
+	if VerifPauseHook != nil {
+		var nodeId uint64
+		if p.raftTransport != nil {
+			nodeId = p.raftTransport.NodeId()
+		}
+		VerifPauseHook(nodeId, p.id, point)
+	}
+}
+
+// VerifPartitionInfo describes one partition as a node sees it.
+type VerifPartitionInfo struct {
+	Id         uuid.UUID
+	NodeIds    []uint64
+	RaftLoaded bool
+	Len        int
+	BytesSize  uint64
+	p          *partition
+}
+
+func (this *VerifPartitionInfo) Dump() *index.VerifState { return this.p.index.VerifDump() }
+func (this *VerifPartitionInfo) Index() *index.Hnsw      { return this.p.index }
+
+type VerifDatasetInfo struct {
+	Id         uuid.UUID
+	Meta       *pb.Dataset
+	Partitions []*VerifPartitionInfo
+}
+
+// VerifDatasets lists the catalogue of this node (sorted by id) with its
+// partitions in routing order.
+func (this *DatasetManager) VerifDatasets() []*VerifDatasetInfo {
+	this.datasetsMu.RLock()
+	defer this.datasetsMu.RUnlock()
+	var out []*VerifDatasetInfo
+	for id, d := range this.datasets {
+		info := &VerifDatasetInfo{Id: id, Meta: d.meta}
+		d.partitionsMu.RLock()
+		for _, p := range d.partitions {
+			p.raftMu.RLock()
+			loaded := p.raft != nil
+			p.raftMu.RUnlock()
+			info.Partitions = append(info.Partitions, &VerifPartitionInfo{
+				Id: p.id, NodeIds: append([]uint64(nil), p.nodeIds()...), RaftLoaded: loaded, Len: p.len(), BytesSize: p.bytesSize(), p: p,
+			})
+		}
+		d.partitionsMu.RUnlock()
+		out = append(out, info)
+	}
+	sort.Slice(out, func(i, j int) bool { return bytes.Compare(out[i].Id[:], out[j].Id[:]) < 0 })
+	return out
+}
